@@ -21,8 +21,10 @@ LEVEL = 'exploration'
 EXHAUSTIVE = True
 RULE = ('Exhaustive product of: platform {default,P} x package default environment {undefined, on default, on P, on '
         'both; with/without DEFAULTS} x launch environment {rich, sparse, bare} x system variables {none, two} x '
-        'named-environment definition {7 default-platform layer templates (absent, literals, own/cross-layer/launch/'
+        'named-environment definition {8 default-platform layer templates (absent, literals, own/cross-layer/launch/'
         'undefined references, DEFAULTS naming present / absent / mixed launch variables, self-reference idiom, '
+        'declared+imported variables whose values reference other declared+imported variables that the launch '
+        'environment also defines (listed earlier and later in DEFAULTS; also in the package default environment), '
         '%(global)s and system-variable references)} x {6 P-platform layer templates (absent, overlapping+disjoint keys, '
         'override of a referenced key, DEFAULTS on the P layer, self references, PATH idiom)} x selection spelling '
         '{unset, "", none/NONE/None, environment/Environment/ENVIRONMENT, name lower/Mixed/UPPER, via %(variable)s} x '
@@ -31,7 +33,8 @@ RULE = ('Exhaustive product of: platform {default,P} x package default environme
         'package). Thorough adds 3+2 layer templates (empty DEFAULTS segments, reference chains, library-path idiom), '
         'a fourth launch environment, the flipped definition spellings and replicated (non-primitive) graphs for every '
         'configuration (quick: replicated graphs for the rich launch environment with system variables only; the package '
-        'driver is run once per configuration because its system variables are chosen by the runtime). '
+        'driver is run once per configuration because its system variables are chosen by the runtime, in quick without '
+        'the bare launch environment). '
         'A case = (driver, document configuration, component); every case is non-trivial (its expected environment '
         'depends on at least the selection rule); distinct = distinct (driver, configuration, environment pair, '
         'selection spelling, interpreter). Excluded as grey: empty values, "$$", variable names that are not plain '
@@ -278,8 +281,9 @@ def run(ctx):
     items = []
     for cfg in G.doc_configs(ctx.thorough):
         items.append(('A', cfg, True))
-        if cfg['system'] == 'sys':
-            # the package driver gets its system variables from the runtime: cfg['system'] is only a label there
+        if cfg['system'] == 'sys' and (ctx.thorough or cfg['launch'] != 'bare'):
+            # the package driver gets its system variables from the runtime: cfg['system'] is only a label there;
+            # it is the most expensive driver, the quick tier leaves its 'bare' launch environment to thorough
             items.append(('B', cfg, True))
         if (ctx.thorough and cfg['flip'] == 0) or (cfg['launch'] == 'rich' and cfg['system'] == 'sys'):
             # replicated (non-primitive) graph, the one the runtime executes
